@@ -790,4 +790,157 @@ theorem rangeEnd_fits (hi : Nat) (h : hi ≤ u64Max) :
   · right; exact ⟨e, by simp [e]⟩
   · left; exact ⟨by simp [e], by omega⟩
 
+/-! ### liveness bookkeeping -/
+
+/-- a background task has left its loop, or the watcher has returned -/
+def shuttingDown (s : State) : Prop :=
+  (s.sendP ≠ .idle ∧ s.sendP ≠ .sending) ∨ s.readP ≠ .idle ∨ s.watcherDone = true
+
+structure LInv (o : ExitOrder) (s : State) : Prop where
+  cfClosing : o = .causeFirst → ∀ r, s.sendP = .closingTransport r → r = none
+  handed : (s.readP = .done ∨ s.sendP = .awaitWatcher ∨ s.sendP = .done) → s.watcherDone = true ∨ s.closeBuf.isSome = true
+  failed : s.failures ≠ [] → shuttingDown s
+
+theorem linv_init (o : ExitOrder) (fcap : Nat) : LInv o (init fcap) := by
+  constructor <;> simp [init]
+
+theorem linv_step (o : ExitOrder) (s : State) (op : Op) (h : Inv o s) (hl : LInv o s) : LInv o (step o s op) := by
+  obtain ⟨h1, h2, h3, h4, h5, h6, h7, h8, h9, h10, h11, h12, h13⟩ := h
+  obtain ⟨l0, l1, l2⟩ := hl
+  unfold shuttingDown at l2
+  cases op <;> simp only [step]
+  case watch => unfold watch; constructor <;> grind [shuttingDown]
+  case frontNew r => unfold frontNew admitted; constructor <;> grind [shuttingDown]
+  case frontRetry i => unfold frontRetry admitted State.setPhase; constructor <;> grind [shuttingDown]
+  case frontDrop i => unfold frontDrop senderDropped State.setPhase; constructor <;> grind [shuttingDown]
+  case frontReadError i => unfold frontReadError slotResult State.setPhase; constructor <;> grind [shuttingDown]
+  case frontTimer i => unfold frontTimer State.setPhase; constructor <;> grind [shuttingDown]
+  case sendTake => unfold sendTake; constructor <;> grind [shuttingDown]
+  case sendOk => unfold sendOk; constructor <;> grind [shuttingDown]
+  case sendErr t => unfold sendErr exitLoop; constructor <;> grind [shuttingDown]
+  case pingErr t => unfold pingErr exitLoop; constructor <;> grind [shuttingDown]
+  case sendSeesClosed => unfold sendSeesClosed exitLoop; constructor <;> grind [shuttingDown]
+  case sendTransportClosed => unfold sendTransportClosed afterTransportClose; constructor <;> grind [shuttingDown, pastClose]
+  case sendReport => unfold sendReport afterReport; constructor <;> grind [shuttingDown]
+  case sendWatcherGone => unfold sendWatcherGone; constructor <;> grind [shuttingDown]
+  case readOk a n => unfold readOk completeOne State.setPhase; constructor <;> grind [shuttingDown]
+  case readErr c => unfold readErr; constructor <;> grind [shuttingDown]
+  case readSeesClosed => unfold readSeesClosed; constructor <;> grind [shuttingDown]
+  case readReport => unfold readReport; constructor <;> grind [shuttingDown]
+
+theorem linv_run (o : ExitOrder) (ops : List Op) : ∀ s, Inv o s → LInv o s → LInv o (run o s ops) := by
+  induction ops with
+  | nil => intro s _ h; exact h
+  | cons op rest ih => intro s h hl; exact ih _ (inv_step o s op h) (linv_step o s op h hl)
+
+/-! ### progress: once a task has failed, the shutdown completes -/
+
+/-- the part of the state the background steps of the shutdown depend on -/
+structure Ctrl where
+  sendP : SendPhase
+  readP : ReadPhase
+  closeBuf : Option Res
+  watcherDone : Bool
+
+def ctrl (s : State) : Ctrl := ⟨s.sendP, s.readP, s.closeBuf, s.watcherDone⟩
+
+def cstep (o : ExitOrder) (c : Ctrl) : Op → Ctrl
+  | .watch =>
+    if c.watcherDone then c else
+    (match c.closeBuf with
+     | none => c
+     | some _ => { c with closeBuf := none, watcherDone := true })
+  | .sendTransportClosed =>
+    (match c.sendP with
+     | .closingTransport r => { c with sendP := afterTransportClose o r }
+     | _ => c)
+  | .sendReport =>
+    (match c.sendP with
+     | .reporting r =>
+       if c.watcherDone then { c with sendP := afterReport o }
+       else if c.closeBuf.isNone then { c with closeBuf := some r, sendP := afterReport o }
+       else c
+     | _ => c)
+  | .readReport =>
+    (match c.readP with
+     | .reporting r =>
+       if c.watcherDone then { c with readP := .done }
+       else if c.closeBuf.isNone then { c with closeBuf := some r, readP := .done }
+       else c
+     | _ => c)
+  | .sendOk => if c.sendP = .sending then { c with sendP := .idle } else c
+  | .sendSeesClosed =>
+    if c.sendP = .idle ∧ c.watcherDone = true then
+      { c with sendP := match o with
+                        | .frontFirst => .closingTransport none
+                        | .causeFirst => .reporting none }
+    else c
+  | .sendWatcherGone =>
+    if c.sendP = .awaitWatcher ∧ c.watcherDone = true then { c with sendP := .closingTransport none } else c
+  | .readSeesClosed => if c.readP = .idle ∧ c.watcherDone = true then { c with readP := .reporting none } else c
+  | _ => c
+
+def isShutdownOp : Op → Bool
+  | .watch | .sendTransportClosed | .sendReport | .readReport | .sendOk | .sendSeesClosed | .sendWatcherGone
+  | .readSeesClosed => true
+  | _ => false
+
+theorem ctrl_step (o : ExitOrder) (s : State) (op : Op) (hb : isShutdownOp op = true) :
+    ctrl (step o s op) = cstep o (ctrl s) op := by
+  obtain ⟨fcap, fc, q, buf, wd, cause, cw, sp, rp, tc, fr, fl⟩ := s
+  cases op <;> simp [isShutdownOp] at hb <;> simp only [step, cstep, ctrl]
+  case watch =>
+    unfold watch
+    cases wd <;> simp
+    cases buf <;> simp
+    rename_i r; cases r <;> simp
+  case sendTransportClosed => unfold sendTransportClosed; cases sp <;> simp
+  case sendReport =>
+    unfold sendReport
+    cases sp <;> simp
+    cases wd <;> cases buf <;> simp
+  case readReport =>
+    unfold readReport
+    cases rp <;> simp
+    cases wd <;> cases buf <;> simp
+  case sendOk => unfold sendOk; cases sp <;> simp
+  case sendSeesClosed => unfold sendSeesClosed exitLoop; cases sp <;> cases wd <;> cases o <;> simp
+  case sendWatcherGone => unfold sendWatcherGone; cases sp <;> cases wd <;> simp
+  case readSeesClosed => unfold readSeesClosed; cases rp <;> cases wd <;> simp
+
+/-- the background steps that finish a shutdown, provided the transport returns from `send`
+(`sendOk`) and from `close` (`sendTransportClosed`) -/
+def shutdownSchedule : List Op :=
+  [.watch, .sendTransportClosed, .sendReport, .readReport, .watch, .sendOk, .sendSeesClosed, .sendReport,
+   .sendWatcherGone, .sendTransportClosed, .sendReport, .readSeesClosed, .readReport]
+
+theorem ctrl_run (o : ExitOrder) (ops : List Op) (hb : ∀ op ∈ ops, isShutdownOp op = true) :
+    ∀ s, ctrl (run o s ops) = ops.foldl (cstep o) (ctrl s) := by
+  induction ops with
+  | nil => intro s; rfl
+  | cons op rest ih =>
+    intro s
+    simp only [run, List.foldl]
+    rw [ih (fun x hx => hb x (List.mem_cons_of_mem _ hx)), ctrl_step o s op (hb op List.mem_cons_self)]
+
+theorem shutdown_ctrl (o : ExitOrder) (c : Ctrl)
+    (g1 : c.closeBuf ≠ some none)
+    (g2 : (c.sendP = .reporting none ∨ c.sendP = .closingTransport none) → c.watcherDone = true)
+    (g3 : c.readP = .reporting none → c.watcherDone = true)
+    (l0 : o = .causeFirst → ∀ r, c.sendP = .closingTransport r → r = none)
+    (l1 : (c.readP = .done ∨ c.sendP = .awaitWatcher ∨ c.sendP = .done) → c.watcherDone = true ∨ c.closeBuf.isSome = true)
+    (hs : (c.sendP ≠ .idle ∧ c.sendP ≠ .sending) ∨ c.readP ≠ .idle ∨ c.watcherDone = true) :
+    (shutdownSchedule.foldl (cstep o) c).sendP = .done ∧ (shutdownSchedule.foldl (cstep o) c).readP = .done := by
+  obtain ⟨sp, rp, buf, wd⟩ := c
+  simp only at g1 g2 g3 l0 l1 hs
+  cases o <;> cases sp <;> cases rp <;> cases wd <;> cases buf <;>
+    simp_all [shutdownSchedule, List.foldl, cstep, afterTransportClose, afterReport]
+
+theorem shutdown_completes (o : ExitOrder) (s : State) (h : Inv o s) (hl : LInv o s) (hs : shuttingDown s) :
+    (run o s shutdownSchedule).sendP = .done ∧ (run o s shutdownSchedule).readP = .done := by
+  have hc := ctrl_run o shutdownSchedule (by decide) s
+  have := shutdown_ctrl o (ctrl s) h.bufErr h.sendNone h.readNone hl.cfClosing hl.handed hs
+  rw [← hc] at this
+  exact this
+
 end Jrpc.ClientTasks
